@@ -540,6 +540,16 @@ def float_monitors(chk, tier):
                     Hr[0, 0] = 0.0
                     for i in range(1, n):
                         Hr[i, i] += E0
+                    # every second case: a complex Hermitian Hamiltonian (imaginary couplings inside the excited band)
+                    cplx = (k % 12) >= 6 and n >= 3
+                    if cplx:
+                        Hr = Hr.astype(complex)
+                        for i in range(1, n):
+                            for j in range(i + 1, n):
+                                a = 0.3 * (0.5 + ((i * 7 + j * 3 + k) % 5) / 5.0) * (abs(Hr[i, j]) + 0.05)
+                                Hr[i, j] += 1j * a
+                                Hr[j, i] -= 1j * a
+                        chk.count("rwa:complex_hamiltonian")
                     fine = 20                         # the laboratory frame needs a much finer step for the same accuracy
                     ham = qr.Hamiltonian(data=Hr.copy())
                     ham.set_rwa([0, 1])
@@ -559,7 +569,7 @@ def float_monitors(chk, tier):
                     if nref > 1:
                         prop3.setDtRefinement(nref)
                     rdm = qr.ReducedDensityMatrix(data=rho0.copy())
-                    with qr.eigenbasis_of(ham):
+                    with (qr.eigenbasis_of(ham) if not cplx else contextlib.nullcontext()):   # (complex unitary bases: C04 / C07)
                         ev3 = prop3.propagate(rdm, method=method_of(L))
                         ev3.convert_from_RWA(ham)
                     out3 = np.array(ev3.data)
@@ -569,7 +579,7 @@ def float_monitors(chk, tier):
                                       "differs from the site-basis computation by %g (n=%d L=%d Nref=%d)" % (dev3, n, L, nref), "monitor", c)
                     ham_b = qr.Hamiltonian(data=Hr.copy())
                     ham_b.set_rwa([0, 1])
-                    with qr.eigenbasis_of(ham_b):
+                    with (qr.eigenbasis_of(ham_b) if not cplx else contextlib.nullcontext()):
                         prop4 = qr.ReducedDensityMatrixPropagator(ta, ham_b)
                         if nref > 1:
                             prop4.setDtRefinement(nref)
